@@ -361,6 +361,9 @@ def current_sim():
 
 
 class Feeder:
+    def __deepcopy__(self, memo):
+        return self          # shared between simulated processes
+
     """the queue's feeder threads (one per putting process): each moves one of its buffered items
     into the shared pipe per step"""
 
@@ -386,6 +389,9 @@ class Feeder:
 
 
 class Queue:
+    def __deepcopy__(self, memo):
+        return self          # shared between simulated processes
+
     _n = 0
 
     def __init__(self, maxsize=0):
@@ -473,6 +479,9 @@ class Queue:
 
 
 class Event:
+    def __deepcopy__(self, memo):
+        return self          # shared between simulated processes
+
     def __init__(self):
         self.sim = _SIM
         self.flag = False
@@ -518,6 +527,13 @@ class Process:
         me = self.sim.cur()
         self.sim.point(lambda: [Action(me, "start", self.proc.name)])
         proc = self.proc
+        if getattr(self.sim, "fork_copy", False):
+            import copy
+            try:
+                proc.args = copy.deepcopy(proc.args)
+                proc.kwargs = copy.deepcopy(proc.kwargs)
+            except Exception:
+                pass
         proc.pending = lambda: [Action(proc, "begin")]
         proc.started = True
 
@@ -552,6 +568,9 @@ def get_start_method():
 
 
 class SoftFileLock:
+    def __deepcopy__(self, memo):
+        return self          # shared between simulated processes
+
     """`filelock.SoftFileLock`: an *existence* lock.  It is held exactly while the lock file exists: acquiring is an atomic
     exclusive create, releasing unlinks the file.  The simulation keeps the real file, so code that removes or creates the
     lock file by path interferes with the lock exactly as it would with the real class."""
@@ -662,9 +681,12 @@ class patched:
         return False
 
 
-def simulate(fn, chooser, max_steps=20000, hang_window=400):
-    """run `fn()` (which calls real toasty code) under the simulation; returns the Sim"""
+def simulate(fn, chooser, max_steps=20000, hang_window=400, fork_copy=False):
+    """run `fn()` (which calls real toasty code) under the simulation; returns the Sim.  `fork_copy`: a started process works on
+    its own deep copy of its arguments (queues, events and locks stay shared), as a forked process works on its own copy of the
+    parent's memory — state that an object keeps between calls is then per process, as in real runs"""
     sim = Sim(chooser, max_steps=max_steps, hang_window=hang_window)
+    sim.fork_copy = fork_copy
     with patched(sim):
         sim.run(fn)
     return sim
